@@ -52,8 +52,8 @@ type synthFont struct {
 }
 
 var synthFonts = []synthFont{
-	{"f1", map[string]int{" ": 1, "a": 1, "b": 2, "c": 3, "é": 2, "{P}": 4, "{C R}": 0, "{C}": 5, "{": 3, "C": 6, "default": 2}}, // an explicit zero width next to a non-zero default; the table also has entries for the bare code {C} and for single characters of the code {C R}: a code is looked up as a whole
-	{"f2", map[string]int{" ": 3, "a": 2, "b": 1, "c": 1}},                                                                       // no default: unknown glyphs and codes are 0 wide
+	{"f1", map[string]int{" ": 1, "a": 1, "b": 2, "c": 3, "é": 2, "{P}": 4, "{C R}": 0, "{C}": 5, "{": 3, "C": 6, "LV": 9, "ab": 7, "default": 2}}, // an explicit zero width next to a non-zero default; the table also has entries for the bare code {C} and for single characters of the code {C R}: a code is looked up as a whole
+	{"f2", map[string]int{" ": 3, "a": 2, "b": 1, "c": 1}}, // no default: unknown glyphs and codes are 0 wide
 }
 
 func (f synthFont) w(g string) int {
@@ -315,7 +315,8 @@ func runC07(tier string) int {
 	// ... and words made of or containing backslashes that are not break codes (one, two and three in a row, before and after
 	// a letter). A text in which such a backslash is directly followed by a break code or by n / l / p / N reads two ways and
 	// is left out.
-	for _, wd := range []string{`\`, `\\`, `\\\`, `a\`, `\a`, `a\\b`, `\\a`} {
+	// ... and words spelled like the reserved key of the width table ("default") and like multi-character keys
+	for _, wd := range []string{"default", "Default", "defaults", "LV", "ab", `\`, `\\`, `\\\`, `a\`, `\a`, `a\\b`, `\\a`} {
 		var glyphs []string
 		for _, g := range wd {
 			glyphs = append(glyphs, string(g))
@@ -324,9 +325,21 @@ func runC07(tier string) int {
 	}
 	all := append(append([]fmtAtom{}, atoms...), classAtoms...)
 	nAll, nB, nC := uint64(len(all)), uint64(len(atoms)), uint64(len(classAtoms))
-	classDone := r.Parallel(nAll+nAll*nAll+nB*nC*nB, func(w int, idx uint64) {
+	classDone := r.Parallel(nAll+nAll*nAll+nB*nC*nB+nC*6*3, func(w int, idx uint64) {
 		var seq []fmtAtom
 		switch {
+		case idx >= nAll+nAll*nAll+nB*nC*nB:
+			// the class word as a word of its own next to other words: before, after and between them
+			x := idx - (nAll + nAll*nAll + nB*nC*nB)
+			c, wd, pat := classAtoms[x%nC], atoms[(x/nC)%6], x/nC/6
+			switch pat {
+			case 0:
+				seq = []fmtAtom{wd, atoms[6], c}
+			case 1:
+				seq = []fmtAtom{c, atoms[6], wd}
+			default:
+				seq = []fmtAtom{wd, atoms[6], c, atoms[7], wd}
+			}
 		case idx < nAll:
 			seq = []fmtAtom{all[idx]}
 		case idx < nAll+nAll*nAll:
